@@ -219,6 +219,7 @@ Proof.
   assert (V2 : ix_valid_pos (q_end r) = true) by (apply valid_pos_iff; lia).
   rewrite V1, V2, Hp. simpl negb. change (false || false) with false. cbv iota.
   set (rid := q_rid r) in *.
+  destruct (rid <? 0) eqn:E0; [apply Z.ltb_lt in E0; lia|].
   destruct (rid <? zlen (irefs ix) - 1) eqn:E1; [apply Z.ltb_lt in E1; lia|].
   set (refs := if rid >=? zlen (irefs ix) then ix_grow_refs (irefs ix) rid else irefs ix).
   set (last := if rid >=? zlen (irefs ix) then 0 else ilast ix).
